@@ -20,10 +20,13 @@
 (***************************************************************************)
 EXTENDS Sem
 
-Models == {"Org", "Author", "Post", "Comment"}
+Models == {"Org", "Author", "Post", "Comment", "PostInfo", "AuthorInfo"}
 \* to-one relations: model -> name -> <<target model, fk column>>
-ToOne == [ Author |-> [ org |-> <<"Org", "org">> ],
-           Post |-> [ author |-> <<"Author", "author">> ],
+\* (Post.info and Author.info deliberately share their name and point to different tables)
+ToOne == [ Author |-> [ org |-> <<"Org", "org">>, info |-> <<"AuthorInfo", "info">> ],
+           Post |-> [ author |-> <<"Author", "author">>, info |-> <<"PostInfo", "info">> ],
+           PostInfo |-> [ none_ |-> <<"PostInfo", "none_">> ],
+           AuthorInfo |-> [ none_ |-> <<"AuthorInfo", "none_">> ],
            Comment |-> [ post |-> <<"Post", "post">> ],
            Org |-> [ none_ |-> <<"Org", "none_">> ] ]
 \* collections: model -> name -> <<kind, target model, fk column on target / m2m side>>
@@ -31,7 +34,9 @@ ToMany == [ Org |-> [ authors |-> <<"fk", "Author", "org">> ],
             Author |-> [ posts |-> <<"fk", "Post", "author">>, edited |-> <<"m2m", "Post", "author">> ],
             \* Post.authors (the editors, many-to-many) deliberately shares its name with Org.authors
             Post |-> [ comments |-> <<"fk", "Comment", "post">>, authors |-> <<"m2m", "Author", "post">> ],
-            Comment |-> [ none_ |-> <<"fk", "Comment", "none_">> ] ]
+            Comment |-> [ none_ |-> <<"fk", "Comment", "none_">> ],
+            PostInfo |-> [ none_ |-> <<"fk", "PostInfo", "none_">> ],
+            AuthorInfo |-> [ none_ |-> <<"fk", "AuthorInfo", "none_">> ] ]
 
 RowOf(db, model, id) == CHOOSE r \in db[model] : r.id = id
 
@@ -94,6 +99,7 @@ EvalR(db, env, t) ==
             LET x == IF IsNullLit(t[4]) THEN EvalR(db, env, t[3]) ELSE EvalR(db, env, t[4]) IN
             BV((x = NULL) = (t[2] = "eq"))
          ELSE Compare(t[2], EvalR(db, env, t[3]), EvalR(db, env, t[4]))
+    [] t[1] = "Call" -> ApplyFn(t[2][3], [i \in 1..Len(t[3]) |-> EvalR(db, env, t[3][i])], Len(t[3]) >= 2 /\ t[3][2][1] = "Lit")
     [] t[1] = "Coll" ->
          LET ms == CollMembers(db, env, t[2]) IN
          IF t[4] = None THEN BV(ms[2] # {})
